@@ -629,6 +629,9 @@ def same(ref, nat, fast=True):
     if "err" in ref:
         if "err" not in nat:
             return False, "reference rejects (%s: %s), native accepts" % (ref["err"], ref.get("code"))
+        kind = nat["err"].get("io_kind")
+        if kind is not None and kind != {"eof": "UnexpectedEof", "syntax": "InvalidData"}.get(nat["err"]["cat"], kind):
+            return False, "io::Error::from(error) has kind %s for a %s error (%s)" % (kind, nat["err"]["cat"], nat["err"]["code"])
         if ref["err"] != "any" and nat["err"]["cat"] != ref["err"]:
             return False, "error category: reference %s (%s), native %s (%s)" % (ref["err"], ref.get("code"), nat["err"]["cat"], nat["err"]["code"])
         return True, ""
